@@ -59,7 +59,7 @@ static double rndf (void) { return (rnd () & 0xffffff) / (double) 0x1000000; }
 
 /* ------------------------------------------------------------------ virtual network */
 typedef struct { NiceAddress from, to; guint8 *data; gsize len; gint64 due_us; guint64 serial; } VPkt;
-typedef struct { NiceSocket *nsock; GQueue rx; int db_w; gboolean closed; } VSock;
+typedef struct { NiceSocket *nsock; GQueue rx; int db_w; gboolean closed; int fail_next; } VSock;
 static GPtrArray *vsocks; static GList *inflight; static guint64 pkt_serial; static guint next_port = 40000;
 static double p_drop, p_dup; static long d_min_us = 1000, d_max_us = 1000; static int max_consec_loss = 2;
 static GHashTable *consec;      /* "from>to" -> consecutive losses */
@@ -102,6 +102,7 @@ typedef struct { NiceAddress from, to; guint8 d[1500]; gsize n; } ReqLog; static
 static gint vs_recv (NiceSocket *sock, NiceInputMessage *msgs, guint n)
 {
   VSock *v = sock->priv; guint i;
+  if (v->fail_next) { v->fail_next = 0; char c; while (recv (g_socket_get_fd (sock->fileno), &c, 1, MSG_DONTWAIT) > 0) ; errno = ECONNRESET; return -1; }   /* recvmsg() failed (ICMP error, ENOMEM ...) */
   for (i = 0; i < n; i++) {
     VPkt *p = g_queue_pop_head (&v->rx); if (!p) break;
     char c; while (recv (g_socket_get_fd (sock->fileno), &c, 1, MSG_DONTWAIT) > 0) if (g_queue_get_length (&v->rx) >= 0) break;
@@ -616,6 +617,9 @@ static void do_op (char *op)
   else if (!strcmp (a[0], "dispatches")) { T ("stat dispatches=%u", dispatch_count); dispatch_count = 0; }
   else if (!strcmp (a[0], "tracepkts")) trace_pkts = I (1);
   else if (!strcmp (a[0], "tracetimers")) trace_timers = I (1);
+  else if (!strcmp (a[0], "recvfail")) { /* recvfail,ip,k : the next receive on the k-th live socket bound to that ip fails (the agent removes the socket) */
+    int k = I (2), seen = 0; for (guint j = 0; j < vsocks->len; j++) { VSock *v = vsocks->pdata[j]; char ip[64]; if (v->closed) continue; nice_address_to_string (&v->nsock->addr, ip);
+      if (!strcmp (ip, a[1]) && seen++ == k) { v->fail_next = 1; char c = 1; if (write (v->db_w, &c, 1) < 0) { } char as[80]; addr_s (&v->nsock->addr, as); T ("net recvfail %s", as); break; } } }
   else if (!strcmp (a[0], "sendfail")) { /* sendfail,ip,on|off : every send to that address fails from now on */
     if (!sendfail) sendfail = g_hash_table_new_full (g_str_hash, g_str_equal, g_free, NULL);
     if (!strcmp (a[2], "on")) g_hash_table_insert (sendfail, g_strdup (a[1]), GINT_TO_POINTER (1)); else g_hash_table_remove (sendfail, a[1]); T ("net sendfail %s %s", a[1], a[2]); }
